@@ -111,6 +111,11 @@ async def amain(pid: str, replay: str | None) -> int:
         if not ctx.audit.ok:
             ctx.broken.append({"kind": "audit", "bad_axioms": ctx.audit.bad, "missing": ctx.audit.missing,
                                "forbidden_tokens": ctx.audit.forbidden, "output": ctx.audit.output[-2000:]})
+        if ctx.tier == "thorough":
+            ok, out = common.leanchecker(targets)
+            ctx.extra["leanchecker"] = {"modules": targets, "ok": ok}
+            if not ok:
+                ctx.broken.append({"kind": "leanchecker", "modules": targets, "output": out})
     # 4. correspondence
     if ctx.driver_ok:
         try:
